@@ -36,13 +36,16 @@ Record case := mkCase {
 Definition zi (i : int) : Z := Uint63.to_Z i.
 Definition voff : Z := 1048576.
 Definition dec_val (z : Z) : val := if z =? 0 then VStale else VNum (z - voff).
-Definition bits (x lo n : Z) : Z := Z.land (Z.shiftr x lo) (Z.ones n).
+(* field extraction on the primitive integer (native shifts), converted to Z afterwards *)
+Definition bits (x : int) (lo n : Z) : Z :=
+  zi (Uint63.land (Uint63.lsr x (Uint63.of_Z lo)) (Uint63.sub (Uint63.lsl 1%uint63 (Uint63.of_Z n)) 1%uint63)).
+Definition shr (x : int) (lo : Z) : Z := zi (Uint63.lsr x (Uint63.of_Z lo)).
 
-Fixpoint dec_lset (fuel : nat) (x : Z) : lset :=
+Fixpoint dec_lset (fuel : nat) (x : int) : lset :=
   match fuel with
   | O => []
-  | S f => if x =? 0 then [] else
-           let e := bits x 0 9 - 1 in (Z.shiftr e 5, Z.land e 31) :: dec_lset f (Z.shiftr x 9)
+  | S f => if zi x =? 0 then [] else
+           let e := bits x 0 9 - 1 in (e / 32, e mod 32) :: dec_lset f (Uint63.lsr x 9%uint63)
   end.
 
 Definition tbl_get (tbl : list lset) (i : Z) : option lset :=
@@ -50,7 +53,7 @@ Definition tbl_get (tbl : list lset) (i : Z) : option lset :=
 
 Definition by_list (mask : Z) : list Z := filter (fun i => Z.testbit mask i) [1; 2; 3; 4; 5; 6].
 
-Fixpoint dec_rules (tbl : list lset) (xs : list Z) : option (list rule) :=
+Fixpoint dec_rules (tbl : list lset) (xs : list int) : option (list rule) :=
   match xs with
   | [] => Some []
   | a :: b :: rest =>
@@ -67,7 +70,7 @@ Fixpoint dec_rules (tbl : list lset) (xs : list Z) : option (list rule) :=
   | _ => None
   end.
 
-Definition dec_op (tbl : list lset) (xs : list Z) : option op :=
+Definition dec_op (tbl : list lset) (xs : list int) : option op :=
   match xs with
   | [] => None
   | h :: rest =>
@@ -75,13 +78,13 @@ Definition dec_op (tbl : list lset) (xs : list Z) : option op :=
       let gid := bits h 2 2 in
       if tag =? 0 then
         match rest with
-        | [p] => option_map (fun l => OpRaw l (bits p 0 28) (dec_val (bits p 28 21))) (tbl_get tbl (Z.shiftr p 51))
+        | [p] => option_map (fun l => OpRaw l (bits p 0 28) (dec_val (bits p 28 21))) (tbl_get tbl (shr p 51))
         | _ => None
         end
       else if tag =? 1 then
-        option_map (fun rs => OpLoad gid rs (Z.shiftr h 8) (bits h 4 4)) (dec_rules tbl rest)
+        option_map (fun rs => OpLoad gid rs (shr h 8) (bits h 4 4)) (dec_rules tbl rest)
       else match rest with
-           | [] => Some (if tag =? 2 then OpEval gid (Z.shiftr h 4) else OpRemove gid (Z.shiftr h 4))
+           | [] => Some (if tag =? 2 then OpEval gid (shr h 4) else OpRemove gid (shr h 4))
            | _ => None
            end
   end.
@@ -101,28 +104,28 @@ Inductive oevent :=
 | ORule (gid ri : Z) (apps : option (list orec))
 | OCleanup (gid : Z) (apps : list orec).
 
-Definition dec_recs (tbl : list lset) (xs : list Z) : option (list orec) :=
+Definition dec_recs (tbl : list lset) (xs : list int) : option (list orec) :=
   all_some (map (fun p => option_map (fun l => (l, bits p 0 28, dec_val (bits p 28 21), bits p 49 2))
-                                     (tbl_get tbl (Z.shiftr p 51))) xs).
+                                     (tbl_get tbl (shr p 51))) xs).
 
-Definition dec_event (tbl : list lset) (xs : list Z) : option oevent :=
+Definition dec_event (tbl : list lset) (xs : list int) : option oevent :=
   match xs with
   | [] => None
   | h :: rest =>
       let tag := bits h 0 2 in
       let gid := bits h 2 2 in
-      if tag =? 0 then match rest with [] => Some (ORaw (Z.shiftr h 2)) | _ => None end
+      if tag =? 0 then match rest with [] => Some (ORaw (shr h 2)) | _ => None end
       else if tag =? 1 then
         if bits h 4 1 =? 0
-        then match rest with [] => Some (ORule gid (Z.shiftr h 5) None) | _ => None end
-        else option_map (fun rs => ORule gid (Z.shiftr h 5) (Some rs)) (dec_recs tbl rest)
+        then match rest with [] => Some (ORule gid (shr h 5) None) | _ => None end
+        else option_map (fun rs => ORule gid (shr h 5) (Some rs)) (dec_recs tbl rest)
       else if tag =? 2 then option_map (OCleanup gid) (dec_recs tbl rest)
       else None
   end.
 
-Definition dec_series (tbl : list lset) (xs : list Z) : option (lset * list sample) :=
+Definition dec_series (tbl : list lset) (xs : list int) : option (lset * list sample) :=
   match xs with
-  | li :: r => option_map (fun l => (l, map (fun p => (bits p 0 28, dec_val (bits p 28 21))) r)) (tbl_get tbl li)
+  | li :: r => option_map (fun l => (l, map (fun p => (bits p 0 28, dec_val (bits p 28 21))) r)) (tbl_get tbl (zi li))
   | [] => None
   end.
 
@@ -133,10 +136,10 @@ Record dcase := mkD {
 }.
 
 Definition decode (c : case) : option dcase :=
-  let tbl := map (fun x => dec_lset 8 (zi x)) (c_tbl c) in
-  match all_some (map (fun xs => dec_op tbl (map zi xs)) (c_ops c)),
-        all_some (map (fun xs => dec_event tbl (map zi xs)) (c_events c)),
-        all_some (map (fun xs => dec_series tbl (map zi xs)) (c_store c)) with
+  let tbl := map (dec_lset 8) (c_tbl c) in
+  match all_some (map (dec_op tbl) (c_ops c)),
+        all_some (map (dec_event tbl) (c_events c)),
+        all_some (map (dec_series tbl) (c_store c)) with
   | Some ops, Some evs, Some st => Some (mkD ops evs st)
   | _, _, _ => None
   end.
@@ -312,16 +315,16 @@ Fixpoint check_rules (st : store) (gid i : Z) (rules : list (rule * list lset)) 
 (* R4 *)
 Definition check_cleanup (st : store) (gid qt : Z) (req alw : list lset) (evs : list oevent)
   : option (store * list oevent) :=
-  let none := match req with [] => Some (st, evs) | _ => None end in
-  match evs with
-  | OCleanup g' recs :: rest =>
-      if g' =? gid then
-        if forallb (fun a => (rec_t a =? qt) && is_stale (rec_v a)) recs
-           && subset req (map rec_l recs) && subset (map rec_l recs) alw
-           && negb (match alw with [] => true | _ => false end)
-        then Some (put_accepted st recs, rest) else None
-      else none
-  | _ => none
+  match alw with
+  | [] => match req with [] => Some (st, evs) | _ => None end     (* nothing to mark: no appender *)
+  | _ =>
+      match evs with
+      | OCleanup g' recs :: rest =>
+          if (g' =? gid) && forallb (fun a => (rec_t a =? qt) && is_stale (rec_v a)) recs
+             && subset req (map rec_l recs) && subset (map rec_l recs) alw
+          then Some (put_accepted st recs, rest) else None
+      | _ => None
+      end
   end.
 
 Definition rule_key_eqb (a b : rule) : bool := rkey_eqb (rkey_of a) (rkey_of b).
